@@ -319,9 +319,27 @@ FRAGMENTS = [f_exists, f_index_brie, f_filter, f_join, f_join3, f_tc, f_mutual, 
              f_arith, f_indexed]
 
 
+def f_input_derived(p):
+    """relations that are loaded from a fact file *and* defined by rules"""
+    r = p.r
+    a = p.fresh("idr")  # input + recursive rules only
+    p.decl(a, [("x", "number")])
+    p.facts[a] = [("%d" % v,) for v in sorted(set(r.randrange(p.meta["domain"]) for _ in range(r.randrange(1, 5))))]
+    p.rule("%s(y) :- %s(x), e1(x,y)." % (a, a))
+    b = p.fresh("idn")  # input + a non-recursive rule
+    p.decl(b, [("x", "number"), ("y", "number")])
+    p.facts[b] = [("%d" % (900 + i), "%d" % r.randrange(9)) for i in range(r.randrange(1, 6))]
+    p.rule("%s(x,z) :- e1(x,y), e1(y,z), x < z." % b)
+    p.meta.setdefault("input_derived_nonrec", []).append(b)
+    p.meta.setdefault("input_derived_rec", []).append(a)
+    return a
+
+
 def gen_c20(seed, size="quick"):
-    """C03's fragment without eqrel storage (the statement excludes it); every IDB relation is an output."""
-    return gen_c03(seed, size, exclude=(f_eqrel,))
+    """C03's fragment without eqrel storage (the statement excludes it); every IDB relation is an output; half of the programs
+    also contain relations that are both loaded from facts and defined by rules."""
+    r = random.Random(seed ^ 0x20)
+    return gen_c03(seed, size, exclude=(f_eqrel, f_input_derived), always=((f_input_derived,) if r.random() < 0.5 else ()))
 
 
 def gen_c03c(seed, size="quick"):
